@@ -19,7 +19,7 @@ type c17Case struct {
 	Prior  int  `json:"prior,omitempty"`  // 0 none; 1: a failing Response under the opposite debug mode was served earlier in this process; 2: one under the same mode with another error; 3: the templates were loaded under the opposite debug mode and Configure switched it afterwards
 }
 
-var c17Pages = []string{"ok", "fail-start", "fail-middle", "fail-end", "fail-in-layout", "fail-in-component", "fail-second-pass", "unknown", "fail-in-insert", "fail-after-component", "fail-in-insert-arg", "layout-name"}
+var c17Pages = []string{"ok", "fail-start", "fail-middle", "fail-end", "fail-in-layout", "fail-in-component", "fail-second-pass", "unknown", "fail-in-insert", "fail-after-component", "fail-in-insert-arg", "layout-name", "fail-in-slot-body"}
 
 var c17Faults = []struct{ src, msgPart string }{
 	{"{{ secretVar }}", "secretVar"},
@@ -74,6 +74,9 @@ func c17Tree(cs c17Case) (Tree, string) {
 		t.Files["p.tw"] = c17Marker + "1 @component(\"comp\", {a: 5}) " + c17Marker + "2"
 	case "fail-after-component":
 		t.Files["p.tw"] = c17Marker + "1 @component(\"comp\", {a: 5})\n" + fault + c17Marker + "2"
+	case "fail-in-slot-body":
+		t.Files["box.tw"] = "<box>" + c17Marker + "B @slot</box>"
+		t.Files["p.tw"] = c17Marker + "1 @component(\"box\")@slot " + c17Marker + "S\n" + fault + "@end@end " + c17Marker + "2"
 	case "fail-second-pass":
 		t.Files["p.tw"] = "@each(v in [1, 2])" + c17Marker + "{{ v }} @if(v == 2)" + fault + "@end@end"
 	case "unknown":
@@ -86,7 +89,8 @@ func c17Tree(cs c17Case) (Tree, string) {
 	switch cs.ErrPg {
 	case 1:
 		t.ErrorPage = "err"
-		t.Files["err.tw"] = "CUSTOM-ERROR-PAGE {{ 40 + 2 }} 50% %v off"
+		// (the page has a variable of its own that is named like an entry of the failed page's data, with another type)
+		t.Files["err.tw"] = "{{ x = \"mine\" }}CUSTOM-ERROR-PAGE {{ 40 + 2 }} 50% %v off"
 	case 2:
 		t.ErrorPage = "noerrpage"
 	case 3:
